@@ -291,6 +291,19 @@ def grid_pixel_conversions(mask, pixel_scales, origin, target, frac, pixels):
     again = geo.grid_pixels_2d_from(grid_scaled_2d=there)
     if np.asarray(again.slim.array).shape != (N, 2) or not _close(again.slim.array, pixels):
         return "grid_pixels_2d_from(grid_scaled_2d_from(p)) = %r != p = %r" % (np.asarray(again.slim.array).tolist(), pixels.tolist())
+    # integer-valued continuous pixel coordinates, handed over with an integer dtype (what grid_pixel_centres_2d_from returns):
+    # the conversion is the same affine map, p -> origin_y + ((H-1)/2 - (p_y - 1/2)) s_y, origin_x + ((p_x - 1/2) - (W-1)/2) s_x
+    want = np.stack([origin[0] + ((H - 1) / 2.0 - (target[:, 0] - 0.5)) * sy, origin[1] + ((target[:, 1] - 0.5) - (W - 1) / 2.0) * sx], axis=-1)
+    for label, arg in (("the Grid2D returned by grid_pixel_centres_2d_from", centres),
+                       ("an int64 Grid2D", aa.Grid2D(values=target.astype(np.int64), mask=mk))):
+        got = np.asarray(geo.grid_scaled_2d_from(grid_pixels_2d=arg).slim.array, dtype=float)
+        if got.shape != (N, 2) or not _close(got, want):
+            return "grid_scaled_2d_from(%s, integer pixel coordinates %r) = %r, the affine map gives %r" % (label, target.tolist(), got.tolist(), want.tolist())
+    from autoarray.geometry import geometry_util as gu
+    got = np.asarray(gu.grid_scaled_2d_slim_from(grid_pixels_2d_slim=target.astype(np.int64), shape_native=(H, W), pixel_scales=pixel_scales,
+                                                 origin=origin), dtype=float)
+    if got.shape != (N, 2) or not _close(got, want):
+        return "geometry_util.grid_scaled_2d_slim_from(int64 pixel coordinates) = %r, the affine map gives %r" % (got.tolist(), want.tolist())
     return None
 
 
